@@ -77,6 +77,8 @@ def run(ctx):
             ("sim", cfg(9, POOLX, POOLX, 4, forms=FORMS, tags="TagsFew", tms=ALLTM, intos="{FALSE, TRUE}"), "num=10", 10),
         ]
     # the source dictionary as call names (one output column each), plain and under INTO / an omitted time column
+    # SELECT DISTINCT a [AS x] under every time mode (the keyword form of distinct(), rewritten by RewriteDistinct)
+    gparts.append(("distinct", cfg(1, '{"a"}', '{"a", "v"}', 1, forms='{"distinct"}', tms=ALLTM, intos="{FALSE, TRUE}"), None, None))
     gparts.append(("dict", cfg(3, '{"a"}', '{"a"}', 1, tms='{"default", "omit"}', intos="{FALSE, TRUE}").replace("SPECIFICATION Spec", "SPECIFICATION DSpec"), None, None))
     for name, text in mparts:
         _, r = gen(ctx, name, text)
